@@ -10,6 +10,7 @@ import Yv.Model.Views
 import Yv.Model.LR0L
 import Yv.Model.SplitA
 import Yv.Model.ListingDrv
+import Yv.Model.ListingSets
 import Yv.Model.Subst
 import Yv.Model.Emit
 import Yv.Model.EmitRead
@@ -73,6 +74,10 @@ structure CaseAcc where
   sRules : Array Subst.RuleInfo := #[]
   sSkip : Bool := false
   iLLA : Array (Nat × Nat × List Nat) := #[]
+  iLTR : Array (Nat × Bool × Nat) := #[]
+  iLDR : Array (Nat × Nat × List Nat) := #[]
+  iLRD : Array (Nat × Nat × List Nat) := #[]
+  iLFO : Array (Nat × Nat × List Nat) := #[]
 
 def parseItem (s : String) : Item :=
   match s.splitOn "." with
@@ -267,6 +272,12 @@ def process (out : IO.FS.Stream) (a : CaseAcc) : IO Unit := do
     let (sl, ll) := Y.listingLines a.rnames yg a.iStates a.iGotos a.iLLA
     for l in sl do out.putStrLn s!"M HLISTS {hexEncode l}"
     for l in ll do out.putStrLn s!"M HLISTLA {hexEncode l}"
+    -- the other sections (C18_listing_trans / _sets / _follow) on the implementation's transitions and sets
+    let nm := Y.namesOf a.rnames
+    for l in Y.transView nm yg a.iLTR.toList do out.putStrLn s!"M HLISTTR {hexEncode l}"
+    for l in Y.setView nm a.iLDR.toList do out.putStrLn s!"M HLISTDR {hexEncode l}"
+    for l in Y.setView nm a.iLRD.toList do out.putStrLn s!"M HLISTRD {hexEncode l}"
+    for l in Y.followView nm a.iLFO.toList do out.putStrLn s!"M HLISTFO {hexEncode l}"
   -- R: the driver model run on the implementation's dense table
   -- the action constants are the ones the implementation will emit (CODES line); on a certified
   -- table they are `errCode n` / `accCode n` and P is exactly `dparams` (checked as V codes)
@@ -553,6 +564,20 @@ partial def loop (inp out : IO.FS.Stream) (a : CaseAcc) (x : XAcc := {}) : IO Un
   | "CODES" :: e :: c :: _ => loop inp out { a with codes := some (e.toInt!, c.toInt!) }
   | "LLA" :: q :: r :: syms =>
     loop inp out { a with iLLA := a.iLLA.push (q.toNat!, r.toNat!, syms.map String.toNat!) }
+  | "LTR" :: q :: k :: x :: _ =>
+    loop inp out { a with iLTR := a.iLTR.push (q.toNat!, k == "1", x.toNat!) }
+  | "LDR" :: q :: x :: syms =>
+    match q.toNat? with
+    | some qn => loop inp out { a with iLDR := a.iLDR.push (qn, x.toNat!, syms.map String.toNat!) }
+    | none => loop inp out a
+  | "LRD" :: q :: x :: syms =>
+    match q.toNat? with
+    | some qn => loop inp out { a with iLRD := a.iLRD.push (qn, x.toNat!, syms.map String.toNat!) }
+    | none => loop inp out a
+  | "LFO" :: q :: x :: syms =>
+    match q.toNat? with
+    | some qn => loop inp out { a with iLFO := a.iLFO.push (qn, x.toNat!, syms.map String.toNat!) }
+    | none => loop inp out a
   | "RNAME" :: i :: rest =>
     let nm := match String.fromUTF8? (hexDecode (rest.headD "")) with | some x => x | none => "?"
     let idx := i.toNat!
